@@ -53,7 +53,10 @@ Definition b2n (b : bool) : nat := if b then 1 else 0.
 (* ------------------------------------------------------------------ *)
 
 (* r = position of the request in the case; c, s = context / session
-   identifiers; L = requests whose context is retrievable at that moment. *)
+   identifiers; L = requests whose context is retrievable at that moment;
+   warn = number of Warning header values, each of the form
+   warn-code SP warn-agent SP quoted-string [SP quoted-string] without
+   control characters (a value not of that form is observed as 100). *)
 Inductive event :=
 | Link (r c : nat)
 | Unlink (r : nat)
@@ -421,6 +424,37 @@ Definition cl_skip_ex (q : req) (E : list event) : bool :=
       else true
   end.
 
+(* C9: upstream is contacted exactly as often as the mode prescribes (once
+   for a plain request that is not skipped and for a blind CONNECT, never
+   after the request modifier hijacked) and the response modifier is given
+   the origin's answer: the origin's status without warnings, or the 502
+   with one warning that stands for a failed round trip / dial. *)
+Definition want_contacts (q : req) : nat :=
+  match r_mode q with
+  | Plain => if is_qskip q then 0 else 1
+  | ConnectBlind => 1
+  | ConnectMitm => 0
+  end.
+
+Definition want_status (q : req) : nat * nat :=
+  match r_mode q with
+  | Plain => if is_qskip q then (200, 0) else if rt_fails q then (502, 1) else (203, 0)
+  | ConnectBlind => if rt_fails q then (502, 1) else (200, 0)
+  | ConnectMitm => (200, 0)
+  end.
+
+Definition cl_relay_ex (q : req) (E : list event) : bool :=
+  match E with
+  | [] => true
+  | _ =>
+      if is_qhijack q then Nat.eqb (count is_contact E) 0
+      else Nat.eqb (count is_contact E) (want_contacts q)
+           && match find_resmod E with
+              | Some (st, w) => Nat.eqb st (fst (want_status q)) && Nat.eqb w (snd (want_status q))
+              | None => false
+              end
+  end.
+
 (* C8: after the hijacking modifier returns the only thing that happens is
    the close. *)
 Fixpoint cl_hijack (T : list event) : bool :=
@@ -463,6 +497,8 @@ Definition cl_error (b : nat) (reqs : list req) (T : list event) : bool :=
   per_req cl_error_ex b reqs T.
 Definition cl_skip (b : nat) (reqs : list req) (T : list event) : bool :=
   per_req cl_skip_ex b reqs T.
+Definition cl_relay (b : nat) (reqs : list req) (T : list event) : bool :=
+  per_req cl_relay_ex b reqs T.
 Definition cl_linked (T : list event) : bool := forallb linked_wf T.
 Definition cl_session (k : nat) (T : list event) : bool := forallb (sess_wf k) T.
 
@@ -472,7 +508,7 @@ Definition in_range (b n : nat) (e : event) : bool :=
   match ev_req e with Some r => Nat.leb b r && Nat.ltb r (b + n) | None => true end.
 
 Inductive clause :=
-| CHijack | CReqmod | CResmod | CCtxFresh | CSession | CNoContext | CError | CSkip | CScope.
+| CHijack | CReqmod | CResmod | CCtxFresh | CSession | CNoContext | CError | CSkip | CScope | CRelay.
 
 (* First failing clause of one connection. *)
 Definition conn_fail (k b : nat) (reqs : list req) (T : list event) : option clause :=
@@ -484,6 +520,7 @@ Definition conn_fail (k b : nat) (reqs : list req) (T : list event) : option cla
   else if negb (cl_linked T) then Some CNoContext
   else if negb (cl_error b reqs T) then Some CError
   else if negb (cl_skip b reqs T) then Some CSkip
+  else if negb (cl_relay b reqs T) then Some CRelay
   else None.
 
 Fixpoint conns_fail (k b : nat) (conns : list (list req)) (Ts : list (list event)) : option clause :=
